@@ -105,18 +105,39 @@ fn completeness_case(ctx: &Ctx, tape: &[u8], rec: &Rec) -> Verdict {
         file.defs.push(d);
     }
     let printed = gen::print::print_file(&file, false);
-    let src = gen::print::render_plain(&printed).src;
+    let mut src = gen::print::render_plain(&printed).src;
+    // no, one or two main components in the run (the second in a second named file: an error, after
+    // which the definitions are handed on as a library — desugared like any other)
+    let mains = t.below(4).min(2);
+    if mains >= 1 {
+        if let Some(d) = file.defs.iter().find(|d| d.kind != gen::ast::DefKind::Function) {
+            let args = vec!["1"; d.params.len()].join(", ");
+            src.push_str(&format!("\ncomponent main = {}({args});\n", d.name));
+        }
+    }
     let dir = scratch(ctx, "c18a");
     let path = dir.join("w.circom");
     std::fs::write(&path, &src).map_err(|e| Bad::new(format!("INFRA write: {e}")))?;
-    let res = completeness_in(&path, &file, &src, rec);
+    let mut paths = vec![path];
+    if mains == 2 {
+        let second = dir.join("w2.circom");
+        std::fs::write(&second, "pragma circom 2.1.0;\ntemplate ZM() { signal input a; signal output b; b <== a; }\ncomponent main = ZM();\n")
+            .map_err(|e| Bad::new(format!("INFRA write: {e}")))?;
+        if t.chance(128) {
+            paths.insert(0, second);
+        } else {
+            paths.push(second);
+        }
+        rec.class("wild_runs_with_two_main_components");
+    }
+    let res = completeness_in(&paths, &file, &src, rec);
     let _ = std::fs::remove_dir_all(&dir);
     res
 }
 
-fn completeness_in(path: &Path, file: &gen::ast::File, src: &str, rec: &Rec) -> Verdict {
+fn completeness_in(paths: &[PathBuf], file: &gen::ast::File, src: &str, rec: &Rec) -> Verdict {
     use parser::ParseResult;
-    let parsed = catch(|| parser::parse_files(&[path.to_path_buf()], &[], &program_analysis::config::COMPILER_VERSION));
+    let parsed = catch(|| parser::parse_files(paths, &[], &program_analysis::config::COMPILER_VERSION));
     let parsed = match parsed {
         Ok(p) => p,
         Err(p) => return Err(Bad::new(format!("parse_files panicked: {p}")).sig("C18:parse-panic").rendered(src.to_string())),
@@ -227,7 +248,7 @@ fn gen_pair(t: &mut Tape) -> Pair {
         let kk = 1 + t.below(5);
         let (e1, e2, e3) = (expr(t, 2), expr(t, 2), expr(t, 1));
         let op = if t.chance(170) { "<==" } else { "<--" };
-        match t.below(if allow_decl { 14 } else { 11 }) {
+        match t.below(if allow_decl { 15 } else { 11 }) {
             0 => {
                 if t.chance(90) {
                     // the right-arrow spelling: `(e..) --> (x..)` / `(e..) ==> (x..)`
@@ -302,6 +323,12 @@ fn gen_pair(t: &mut Tape) -> Pair {
                 forms.push("tuple declaration of variables");
                 s.push_str(&format!("    var (vd{i}, ve{i}) = ({e1}, {e2});\n    ta{i} <== vd{i};\n    tb{i} <== ve{i};\n"));
                 e.push_str(&format!("    var vd{i};\n    var ve{i};\n    vd{i} = {e1};\n    ve{i} = {e2};\n    ta{i} <== vd{i};\n    tb{i} <== ve{i};\n"));
+            }
+            13 => {
+                forms.push("tuple declaration of components");
+                let rest = format!("    zd{i}.a <== {e1};\n    zd{i}.b <== {e2};\n    ta{i} <== zd{i}.o1;\n    tb{i} <== ze{i}.o;\n");
+                s.push_str(&format!("    component (zd{i}, ze{i}) = (A22({kk}), A0());\n{rest}"));
+                e.push_str(&format!("    component zd{i};\n    component ze{i};\n    zd{i} = A22({kk});\n    ze{i} = A0();\n{rest}"));
             }
             _ => {
                 forms.push("signal declaration initialised by an anonymous component without inputs");
